@@ -128,6 +128,21 @@ impl Check for MerkleIndexed {
                         (_, true) => return Err(violation("verify.accepts_honest", "verify_with_index", i, format!("{s:?} rejected: {vr:?}"))),
                         _ => {}
                     }
+                    // the same leaf hash and proof under a WRONG position must never verify: neighbours, positions sharing
+                    // the low bits of the right one (index + k * 2^depth), and a far one
+                    if genuine {
+                        let depth = proof.len() as u32;
+                        let span = 1u32.checked_shl(depth).unwrap_or(0);
+                        for wrong in [leaf.index ^ 1, leaf.index.wrapping_add(1), leaf.index.wrapping_add(span), leaf.index.wrapping_add(span.wrapping_mul(2)), leaf.index.wrapping_add(7), u32::MAX - leaf.index] {
+                            if wrong == leaf.index {
+                                continue;
+                            }
+                            st.hit("fault.wrong_position");
+                            if let Ok(Ok(true)) = c.try_verify(&pv, &BytesN::from_array(e, root), &BytesN::from_array(e, &lh), &wrong) {
+                                return Err(violation("verify.rejects_corrupted", "wrong_index", i, format!("leaf {} of a {}-leaf tree (proof length {depth}) verified at position {wrong}", leaf.index, leaves.len())));
+                            }
+                        }
+                    }
                     let before = w.storage_digest(&[&id]);
                     let got = c.try_claim(&leaf, &pv).is_ok();
                     let exp = genuine && cur == Some(*tree) && !claimed.contains(&leaf.index);
